@@ -3,6 +3,7 @@ package pos
 import (
 	"fmt"
 	"github.com/pokt-network/posmint/x/pos/keeper"
+	"sort"
 	"time"
 
 	sdk "github.com/pokt-network/posmint/types"
@@ -105,20 +106,31 @@ func InitGenesis(ctx sdk.Ctx, keeper keeper.Keeper, supplyKeeper types.AuthKeepe
 		},
 	)
 	// update signing information from genesis state
-	for addr, info := range data.SigningInfos {
+	// (in the order of the addresses, not of the map: the order of the writes shapes the IAVL tree and so the app hash)
+	signingAddrs := make([]string, 0, len(data.SigningInfos))
+	for addr := range data.SigningInfos {
+		signingAddrs = append(signingAddrs, addr)
+	}
+	sort.Strings(signingAddrs)
+	for _, addr := range signingAddrs {
 		address, err := sdk.AddressFromHex(addr)
 		if err != nil {
 			panic(err)
 		}
-		keeper.SetValidatorSigningInfo(ctx, address, info)
+		keeper.SetValidatorSigningInfo(ctx, address, data.SigningInfos[addr])
 	}
 	// update missed block information from genesis state
-	for addr, array := range data.MissedBlocks {
+	missedAddrs := make([]string, 0, len(data.MissedBlocks))
+	for addr := range data.MissedBlocks {
+		missedAddrs = append(missedAddrs, addr)
+	}
+	sort.Strings(missedAddrs)
+	for _, addr := range missedAddrs {
 		address, err := sdk.AddressFromHex(addr)
 		if err != nil {
 			panic(err)
 		}
-		for _, missed := range array {
+		for _, missed := range data.MissedBlocks[addr] {
 			keeper.SetMissedBlockArray(ctx, address, missed.Index, missed.Missed)
 		}
 	}
